@@ -185,9 +185,12 @@ def confirm(ctx, fam, binary, script, want=None):
     Returns the list of property verdicts (or ['panic'])."""
     sp = os.path.join(ctx.scratch, "confirm.script")
     tp = os.path.join(ctx.scratch, "confirm.trace")
+    # a history with overlapping API calls depends on the scheduler: give it 25 chances to show the same failure
+    repeat = 25 if any(a.get("a") == "cstart" for a in script) else 1
     with open(sp, "w") as f:
-        for a in script:
-            f.write(json.dumps(a) + "\n")
+        for _ in range(repeat):
+            for a in script:
+                f.write(json.dumps(a) + "\n")
     drive(ctx, binary, fam.sub, sp, tp, timeout=300)
     lines = read_lines(tp)
     out = []
@@ -198,7 +201,7 @@ def confirm(ctx, fam, binary, script, want=None):
     return out + [v for _, v in fails]
 
 
-ARGS = ("a", "cfg", "id", "mac", "ip", "l", "k", "op", "sm", "si", "ti", "tm", "src", "rmac", "opts", "kind", "n")
+ARGS = ("a", "cfg", "id", "mac", "ip", "l", "k", "op", "es", "sm", "si", "ti", "tm", "src", "rmac", "opts", "kind", "n")
 
 
 def script_of(recs):
@@ -391,7 +394,9 @@ def arp_random_script(rng, length):
         m = rng.choice(macs)
         if x < 0.22:
             y = rng.random()
-            if y < 0.80:
+            if y < 0.10:
+                out.append({"a": "cstart", "mac": m, "ip": ipof[m], "n": rng.choice([2, 4, 8])})
+            elif y < 0.80:
                 out.append({"a": "start", "mac": m, "ip": ipof[m]})
             elif y < 0.88:
                 out.append({"a": "start", "mac": m, "ip": rng.choice(pool)})
@@ -407,11 +412,29 @@ def arp_random_script(rng, length):
             op = rng.choice([1, 1, 1, 2])
             si = rng.choice([ipof[m], ipof[m], "zero", "zero", "ll1", rng.choice(ARP_IPS)])
             ti = rng.choice(["routerip", "routerip", rng.choice(ARP_IPS), rng.choice(ARP_IPS), "x1", "ll1", "hostip", "zero"])
-            out.append({"a": "recv", "op": op, "sm": rng.choice(macs + [rng.choice(ARP_MACS)]), "si": si, "ti": ti})
+            sm = rng.choice(macs + [rng.choice(ARP_MACS)])
+            es = sm if rng.random() < 0.65 else rng.choice(macs + [rng.choice(ARP_MACS)])     # a relay forwards another station's packet
+            out.append({"a": "recv", "op": op, "es": es, "sm": sm, "si": si, "ti": ti})
         elif x < 0.97:
             out.append({"a": "offer", "mac": m, "ip": rng.choice(ARP_IPS + ["noip", "l1"])})
         else:
             out.append({"a": "close"})
+    return out
+
+
+def stress_script(rng, macs, ips, behaviours, rounds, n):
+    """Overlapping StartHunt calls for one not-yet-hunted address, many rounds (scheduler dependent)."""
+    out = []
+    for _ in range(behaviours):
+        h = []
+        for r in range(rounds):
+            m = rng.choice(macs)
+            h.append({"a": "cstart", "mac": m, "ip": rng.choice(ips), "n": n})
+            h.append({"a": "step", "k": r})
+            h.append({"a": "stop", "mac": m, "ip": "noip"})       # (the ARP driver ignores ip; for ICMPv6 an address-less stop is effective)
+            h.append({"a": "step", "k": r})
+            h.append({"a": "step", "k": r})
+        out.append(h)
     return out
 
 
@@ -457,6 +480,12 @@ def run_c13(ctx):
     rng.shuffle(bad)
     bad.sort(key=lambda b: len(b["hist"]))
     kf_hist = [b["hist"] for b in bad[:40 if quick else 200]]
+    # a StartHunt whose membership test and insert are separate critical sections (deviation variant RacyStart):
+    # TLC shows that two overlapping calls give one hunt two loops; the stress stage below looks for it on the real code
+    r, bad2 = counterexamples(ctx, fam, base, "counterexamples_racyStart", 6, MaxLoops=2, RecvOps="{}", ByMac="TRUE", RacyStart="TRUE")
+    states, trans = states + r.distinct, trans + r.generated
+    if not bad2 or any(b["bad"] != "C13_Idempotent" for b in bad2):
+        raise vlib.InfraError("RacyStart variant: expected C13_Idempotent counterexamples, got %s" % sorted({b["bad"] for b in bad2}))
 
     behaviours = [("tlc-counterexamples", kf_hist)]
     sim_depth, sim_num = (14, 600) if quick else (22, 3000)
@@ -468,6 +497,8 @@ def run_c13(ctx):
     behaviours.append(("tlc-walks-probe", hs[:100 if quick else 600]))
     n, ln = (300, 50) if quick else (1500, 70)
     behaviours.append(("random", [arp_random_script(rng, ln) for _ in range(n)]))
+    # one concurrent-API stage: 16 overlapping StartHunt calls per round
+    behaviours.append(("stress", stress_script(rng, ARP_MACS[:3], ["a1", "a2"], 10 if quick else 40, 30, 16)))
 
     stats, runs, nbeh, total, samples, drift = {}, [], 0, 0, [], []
     distinct = set()
@@ -681,11 +712,15 @@ def ra_key(vec, field):
         return "C14:RA:mtu:KF_MTUOffset"
     if f == "rdnss" and "rdnssEven" in [o["id"] for o in vec["opts"]]:
         return "C14:RA:rdnss:KF_EvenLength"
+    if f == "mtu" and "mtu33" in ids:
+        return "C14:RA:mtu:KF_LengthWraps"
+    if f == "dnssl" and any(i in ("dnssl15", "dnssl16", "dnssl30") for i in ids):
+        return "C14:RA:dnssl:KF_LongOptionLength"
     bad = any(i in RA_MALFORMED for i in ids)
     return "C14:RA:%s:%s" % (f, "malformed-option-present" if bad else "wellformed")
 
 
-RA_MALFORMED = {"pfxShort", "mtuLong", "rdnssEven", "rdnssShort", "dnsslShort", "routeBad", "sllaLong"}
+RA_MALFORMED = {"pfxShort", "mtuLong", "rdnssEven", "rdnssShort", "dnsslShort", "routeBad", "sllaLong", "mtu33", "slla33", "pfx36"}
 
 
 def ra_vectors(ctx, part, maxlen, maxsecond):
@@ -835,22 +870,26 @@ class NdpFamily(Family):
 
 
 NDP_MACS = ["m%d" % i for i in range(1, 7)]
+NDP_OTHER_V6 = ["ula1", "unspec6", "loop6", "mc5", "map4", "allnodes"]      # IPv6, but not link-local unicast: ignored targets
 
 
 def ndp_random_script(rng, length):
     macs = rng.sample(NDP_MACS, rng.randint(2, 4))
-    ipof = {m: rng.choice(["l1", "l2", "l3", "l4", "noip", "noip", "g1", "a1"]) for m in macs}
-    routers = rng.sample([("r1", "rm1"), ("r2", "rm2"), ("r3", "rm3")], rng.randint(1, 2))
+    ipof = {m: rng.choice(["l1", "l2", "l3", "l4", "noip", "noip", "g1", "a1"] + NDP_OTHER_V6) for m in macs}
+    routers = rng.sample([("r1", "rm1"), ("r2", "rm2"), ("r3", "rm3")], rng.randint(1, 3))
     out = []
     closed = False
     for _ in range(length):
         x = rng.random()
         m = rng.choice(macs)
         if x < 0.18:
-            ip = ipof[m] if rng.random() < 0.8 else rng.choice(["l1", "l3", "noip", "g2", "a2"])
-            out.append({"a": "start", "mac": m, "ip": ip})
+            ip = ipof[m] if rng.random() < 0.7 else rng.choice(["l1", "l3", "noip", "g2", "a2"] + NDP_OTHER_V6)
+            if rng.random() < 0.1:
+                out.append({"a": "cstart", "mac": m, "ip": ip, "n": rng.choice([2, 4, 8])})
+            else:
+                out.append({"a": "start", "mac": m, "ip": ip})
         elif x < 0.28:
-            ip = ipof[m] if rng.random() < 0.7 else rng.choice(["noip", "g1", "a1", "l2"])
+            ip = ipof[m] if rng.random() < 0.7 else rng.choice(["noip", "g1", "a1", "l2"] + NDP_OTHER_V6)
             out.append({"a": "stop", "mac": rng.choice(macs + [rng.choice(NDP_MACS)]), "ip": ip})
         elif x < 0.62:
             out.append({"a": "step", "k": rng.randint(0, 5)})
@@ -911,6 +950,9 @@ def run_c14(ctx):
     behaviours.append(("tlc-walks", hs[:sim_num]))
     n, ln = (300, 60) if quick else (1500, 80)
     behaviours.append(("random", [ndp_random_script(rng, ln) for _ in range(n)]))
+    # one concurrent-API stage: 16 overlapping StartHunt calls per round (link-local and address-less targets)
+    behaviours.append(("stress", stress_script(rng, NDP_MACS[:3], ["l1", "l2"], 5 if quick else 20, 30, 16) +
+                       stress_script(rng, NDP_MACS[:3], ["noip"], 5 if quick else 20, 30, 16)))
 
     stats, runs, nbeh, total, samples, drift = {}, [], 0, 0, [], []
     distinct = set()
